@@ -6,6 +6,7 @@
 #include <cocls/future.h>
 #include <cocls/async.h>
 #include "future.h"
+#include <array>
 #include <future>
 #include <memory>
 #include <optional>
@@ -34,6 +35,7 @@ struct pool_job {
     std::atomic<int> submitted{0};
     std::atomic<int> outer_ran{0};
     bool throws = false; // run(fn) / run(async): the job ends with an exception, which must reach the returned future
+    int pad = 0;         // run_detached: closure size class (see pool_submit)
     int busy = 0;        // run_detached: the job keeps its worker busy for a while (a stop() arriving meanwhile blocks in join)
 };
 struct pool_round {
@@ -119,13 +121,31 @@ inline void pool_submit(pool_round &X, pool_job &j) {
         })));
         break;
     case PK_RUN_ASYNC: j.fut = std::unique_ptr<cocls::future<int>>(new cocls::future<int>(P.run(pj_async_body(X, j, tracked(42))))); break;
-    case PK_RUN_DETACHED:
-        P.run_detached([&X, &j, g = closure_guard(&j)]() {
-            if (!is_current(*X.pool)) j.off_worker.fetch_add(1, std::memory_order_relaxed);
-            for (int i = 0; i < j.busy; i++) vf::cpu_relax();
-            j.ran.fetch_add(1, std::memory_order_relaxed);
-        });
+    case PK_RUN_DETACHED: {
+        // closures of 24, 56 (largest that fits the 64-byte small buffer of cocls::function), 64 (first that does not) and 224 bytes;
+        // the padding carries a pattern that must survive every move of the wrapper
+        auto submit = [&](auto pad) {
+            for (size_t i = 0; i < pad.size(); i++) pad[i] = (char)(i * 7 + 3);
+            P.run_detached([&X, &j, g = closure_guard(&j), pad]() {
+                if (!is_current(*X.pool)) j.off_worker.fetch_add(1, std::memory_order_relaxed);
+                for (size_t i = 0; i < pad.size(); i++) if (pad[i] != (char)(i * 7 + 3)) j.off_worker.fetch_add(1000, std::memory_order_relaxed);
+                for (int i = 0; i < j.busy; i++) vf::cpu_relax();
+                j.ran.fetch_add(1, std::memory_order_relaxed);
+            });
+        };
+        switch (j.pad) {
+        case 1: submit(std::array<char, 32>{}); break;
+        case 2: submit(std::array<char, 40>{}); break;
+        case 3: submit(std::array<char, 200>{}); break;
+        default:
+            P.run_detached([&X, &j, g = closure_guard(&j)]() {
+                if (!is_current(*X.pool)) j.off_worker.fetch_add(1, std::memory_order_relaxed);
+                for (int i = 0; i < j.busy; i++) vf::cpu_relax();
+                j.ran.fetch_add(1, std::memory_order_relaxed);
+            });
+        }
         break;
+    }
     case PK_RESUME_SP: pj_parked(X, j).detach(); P.resume((*j.gate_prom)()); j.gate_prom.reset(); break;
     case PK_CURRENT:
         P.run_detached([&X, &j, g = closure_guard(&j)]() { j.outer_ran.store(1, std::memory_order_relaxed); pj_current(X, j).detach(); });
@@ -160,6 +180,7 @@ inline void pool_mt(const vf::opts &o, vf::report &R, vf::team &T, uint64_t roun
                 j.kind = (int)r.below(PK_NKINDS);
                 j.throws = (j.kind == PK_RUN_FN || j.kind == PK_RUN_ASYNC) && r.chance(1, 4);
                 if (j.kind == PK_RUN_DETACHED && r.chance(1, 2)) j.busy = 2000 + (int)r.below(60000);
+                if (j.kind == PK_RUN_DETACHED) j.pad = (int)r.below(4);
                 if (j.kind == PK_AWAIT_POOL_AWT || j.kind == PK_RESUME_SP) { j.gate = std::make_unique<cocls::future<void>>(); j.gate_prom.emplace(j.gate->get_promise()); }
                 desc += std::string(pk_name(j.kind)) + (j.throws ? " throwing, " : ", ");
             }
@@ -254,6 +275,7 @@ inline void pool_mt(const vf::opts &o, vf::report &R, vf::team &T, uint64_t roun
                 else err = std::string(pk_name(j.kind)) + ": executed " + std::to_string(ran) + " times and cancelled " + std::to_string(can) + " times";
                 errkind = j.kind;
             }
+            if (err.empty() && j.off_worker.load() >= 1000) { err = std::string(pk_name(j.kind)) + ": the captured data of the job closure was corrupted on its way through the pool's function wrapper"; errkind = j.kind; }
             if (err.empty() && j.off_worker.load()) { err = std::string(pk_name(j.kind)) + ": executed on a thread that is not one of the pool's workers"; errkind = j.kind; }
             nran += ran; ncancel += can ? 1 : 0;
         }
